@@ -323,13 +323,12 @@ func aggBattery(c *Ctx, a *aggMembers, valueSemantics bool) {
 				}
 			}
 			// ... and values no member has inside chunks that members do have (those chunks shrink under AndAny)
-			for _, v := range x.M.Intervals() {
-				if r.Chance(0.5) {
-					for k := 0; k < 1+r.Intn(3); k++ {
-						y := (v.Lo &^ 0xFFFF) | r.Range(0, 65535)
-						if !u.Contains(y) {
-							om.Add(y)
-						}
+			if xi := x.M.Intervals(); len(xi) > 0 {
+				for t := 0; t < 6; t++ {
+					v := xi[r.Intn(len(xi))]
+					y := (v.Lo &^ 0xFFFF) | r.Range(0, 65535)
+					if !u.Contains(y) {
+						om.Add(y)
 					}
 				}
 			}
